@@ -1,6 +1,7 @@
 """shared driver of the checks C01-C04 (Expecter): Coq proofs + correspondence expect-hist + direct oracles"""
 import json
 import os
+import re
 
 from . import common
 from .common import clist, cnat, ctext, copt
@@ -168,11 +169,21 @@ def wrappers_job(ctx, n):
             k = rng.choice([1, 1, 2, 3, 5])
             script.append(stream[i:i + k])
             i += k
-            if rng.random() < 0.12:
-                script.append(rng.choice(['T', 'T', 'X']))
+            if rng.random() < 0.2:
+                script.append(rng.choice(['T', 'T', 'T', 'X']))
         if rng.random() < 0.5:
             script.append('E')
-        ops = [rng.choice([('readline',), ('readline',), ('readall',), ('readn', rng.randint(0, 4)), ('readlines',)]) for _ in range(rng.randint(1, 5))]
+        ops = []
+        for _ in range(rng.randint(1, 5)):
+            x = rng.random()
+            if x < 0.3:
+                # an ordinary expect-family call in between (it may time out and leave a trimmed search buffer behind)
+                pats = [rng.choice(['a', 'b', 'ab', 'ba', '\r\n', 'zz', 'aab']) for _ in range(rng.randint(1, 2))]
+                if rng.random() < 0.3:
+                    pats.insert(rng.randint(0, len(pats)), rng.choice(['EOF', 'TIMEOUT']))
+                ops.append(('call', rng.choice(['exact', 're']), pats, rng.random() < 0.2))
+            else:
+                ops.append(rng.choice([('readline',), ('readline',), ('readall',), ('readn', rng.randint(0, 4)), ('readn', rng.randint(1, 3)), ('readlines',)]))
         sp, enc = H.make_spawn(pexpect, uni, script)
         sp.searchwindowsize = wd
         obs = []
@@ -184,6 +195,22 @@ def wrappers_job(ctx, n):
                     r = [0, sp.read()]
                 elif op[0] == 'readn':
                     r = [0, sp.read(op[1])]
+                elif op[0] == 'call':
+                    plist = [pexpect.EOF if p == 'EOF' else pexpect.TIMEOUT if p == 'TIMEOUT' else (enc(p) if op[1] == 'exact' else re.compile(re.escape(enc(p)), re.DOTALL)) for p in op[2]]
+                    try:
+                        idx = (sp.expect_exact if op[1] == 'exact' else sp.expect_list)(plist, timeout=0 if op[3] else 30)
+                        if sp.after is pexpect.EOF:
+                            r = [3, [1, [idx], sp.before]]
+                        elif sp.after is pexpect.TIMEOUT:
+                            r = [3, [2, [idx], sp.before]]
+                        else:
+                            r = [3, [0, idx, sp.before, sp.after]]
+                    except pexpect.EOF:
+                        r = [3, [1, [], sp.before]]
+                    except pexpect.TIMEOUT:
+                        r = [3, [2, [], sp.before]]
+                    except OSError:
+                        r = [3, [3, sp.before]]
                 else:
                     lines, fin = [], 0
                     try:
@@ -201,17 +228,23 @@ def wrappers_job(ctx, n):
             except pexpect.EOF:
                 r = [1, 1]
             obs.append([r, sp._before.getvalue(), sp._buffer.getvalue(), len(sp.script)])
-        cops = clist(['WReadline' if o[0] == 'readline' else 'WReadAll' if o[0] == 'readall' else 'WReadlines' if o[0] == 'readlines' else '(WReadN %s)' % cnat(o[1]) for o in ops])
+        def cop(o):
+            if o[0] == 'call':
+                ents = ['PEof' if p == 'EOF' else 'PTimeout' if p == 'TIMEOUT' else ('(PStr %s)' % ctext(enc(p)) if o[1] == 'exact' else '(PRe (Lit %s))' % ctext(enc(p))) for p in o[2]]
+                return '(WCall %s %s %s)' % ('KExact' if o[1] == 'exact' else 'KRe', clist(ents), 'true' if o[3] else 'false')
+            return 'WReadline' if o[0] == 'readline' else 'WReadAll' if o[0] == 'readall' else 'WReadlines' if o[0] == 'readlines' else '(WReadN %s)' % cnat(o[1])
+        cops = clist([cop(o) for o in ops])
         evs = clist(['Timeout' if e == 'T' else 'Eof' if e == 'E' else 'Err' if e == 'X' else '(Data %s)' % ctext(enc(e)) for e in script])
         cases.append(('(%s, %s, %s, {| pend := []; buf := [] |})' % (copt(wd, cnat), cops, evs), obs, {'script': script, 'ops': [list(o) for o in ops], 'W': wd, 'unicode': uni}))
     ctx.run_cases('wrappers', ['Base.PySeq', 'Base.Rx', 'Expect.Model', 'Expect.Wrappers', 'Expect.Run'], 'run_wrappers',
-                  'option nat * list wop * list ev * st', cases, shard=250)
+                  'option nat * list (wop rx) * list ev * st', cases, shard=250)
 
 
 def wrapper_oracle(ctx, which, n):
-    """read(size) / readline / readlines / iteration / expect mixed on one scripted stream (direct oracle on
-    the real code): the pieces returned, in order, followed by what is still pending, are the text received;
-    after EOF every further call returns the empty string (C01, C04)."""
+    """read(size) / readline / readlines / iteration / expect mixed on one scripted stream with TIMEOUTs in between (direct
+    oracle on the real code): the pieces returned, in order, followed by what is still pending (the buffer attribute after a
+    match, before after a TIMEOUT), are the text received; a call that times out hands back nothing; after EOF every further
+    call returns the empty string (C01, C04)."""
     pexpect = common.preflight()
     rng = ctx.rng
     tried = 0
@@ -220,18 +253,21 @@ def wrapper_oracle(ctx, which, n):
         alpha = 'ab\r\n' if rng.random() < 0.7 else 'a\r\nb\r'
         stream = ''.join(rng.choice(alpha) if rng.random() < 0.7 else '\r\n' for _ in range(rng.randint(0, 14)))
         script, i = [], 0
+        with_timeouts = rng.random() < 0.5
         while i < len(stream):
             k = rng.choice([1, 1, 2, 3, 5])
             script.append(stream[i:i + k])
             i += k
+            if with_timeouts and rng.random() < 0.3:
+                script.append('T')
         sp, enc = H.make_spawn(pexpect, uni, script)
-        received_all = enc(stream)
         got = enc('')
         calls = []
         ok = True
         eof_seen = False
         for _ in range(rng.randint(1, 6)):
-            op = rng.choice(['read1', 'readn', 'readline', 'readline', 'expect', 'readall', 'readlines', 'iter'])
+            op = rng.choice(['read1', 'readn', 'readline', 'readline', 'expect', 'expect', 'readall', 'readlines', 'iter'])
+            timed_out = False
             try:
                 if op == 'read1':
                     r = sp.read(1)
@@ -246,19 +282,27 @@ def wrapper_oracle(ctx, which, n):
                 elif op == 'iter':
                     r = enc('').join(list(sp))
                 else:
-                    pat = enc(rng.choice(['a', 'b', '\r\n', 'ab']))
+                    pat = enc(rng.choice(['a', 'b', '\r\n', 'ab', 'zz', 'bab']))
                     i2 = sp.expect_exact([pat, pexpect.EOF])
                     r = sp.before + (sp.after if i2 == 0 else enc(''))
+            except pexpect.TIMEOUT:
+                # a call that times out consumes nothing (pieces that readlines()/iteration had already collected are lost to
+                # the caller with the exception: those two are not mixed with TIMEOUTs here)
+                if op in ('readlines', 'iter'):
+                    break
+                timed_out = True
+                r = enc('')
             except Exception as e:
                 ctx.hit('%s/wrapper-raises' % which, '%s raised %r on stream %r' % (op, e, stream),
                         {'stream': stream, 'script': script, 'calls': calls + [op], 'unicode': uni})
                 ok = False
                 break
-            calls.append(op)
+            calls.append(op + ('(TIMEOUT)' if timed_out else ''))
             got += r
             consumed = enc('').join(sp.consumed)
-            if got + sp.buffer != consumed:
-                ctx.hit('C01/wrappers', 'after %r: returned pieces %r + pending %r != received %r' % (calls, got, sp.buffer, consumed),
+            pending = sp.before if timed_out else sp.buffer
+            if got + pending != consumed:
+                ctx.hit('C01/wrappers', 'after %r: returned pieces %r + pending %r != received %r' % (calls, got, pending, consumed),
                         {'stream': stream, 'script': script, 'calls': calls, 'unicode': uni})
                 ok = False
                 break
@@ -266,7 +310,7 @@ def wrapper_oracle(ctx, which, n):
                 ctx.hit('C04/after-eof', 'call %s after EOF returned %r' % (op, r), {'stream': stream, 'script': script, 'calls': calls, 'unicode': uni})
                 ok = False
                 break
-            if not sp.script and sp.buffer == enc('') and op in ('readall', 'readlines', 'iter'):
+            if not sp.script and sp.buffer == enc('') and op in ('readall', 'readlines', 'iter') and not timed_out:
                 eof_seen = True
         tried += 1
         if not ok:
